@@ -513,6 +513,42 @@ def rule_r15(ctx):
     c01.check_resume(ctx, r, fn, True, residual_only=True)
 
 
+# ---------------------------------------------------------------------------
+# R16: both sides of the handshake look the peer's subprotocol up in their own list
+
+
+def rule_r16(ctx):
+    r = ctx.rule("C16.R16", "T9", "the subprotocol check has one direction on both sides of the handshake: where ws_contains_word compares the "
+                 "endpoint's configured Sec-WebSocket-Protocol list (the `proto` field of the listener / dialer) with the value the "
+                 "peer sent, the configured list is the phrase that is searched and the peer's value is the word -- the other way "
+                 "round a client offering a list is upgraded with a multi-valued protocol header echoed back, and a listener "
+                 "configured with a list refuses every valid single offer", floor=2)
+    prog = ctx.prog
+    n = 0
+    for f in prog.fns_in("supplemental/websocket/websocket.c"):
+        if f.cfg_failed:
+            continue
+        for c in f.calls("ws_contains_word"):
+            a = [f.expand(x) if x is not None else None for x in c.node["args"]]
+            if len(a) != 2:
+                continue
+
+            def own(x):
+                return x is not None and any(m.get("k") == "mem" and m.get("f") == "proto" for m in walk(x))
+            if not own(a[0]) and not own(a[1]):
+                continue
+            n += 1
+            if own(a[0]) and not own(a[1]):
+                r.ob(f, "line %s: the endpoint's own list is searched for the peer's value" % c.line)
+            else:
+                ctx.fail(r, f, "subprotocol check the wrong way round", c.line,
+                         "%s calls ws_contains_word(%s, %s): the peer's header is searched for the endpoint's configured list "
+                         "instead of the list for the peer's value (the sibling check on the other side of the handshake has "
+                         "the configured list first)" % (f.name, show(a[0]), show(a[1])))
+    if n < 2:
+        raise AnalysisBroken("only %d subprotocol checks found" % n)
+
+
 def run(ctx):
     ctx.guard(rule_r1)
     ctx.guard(rule_r2)
@@ -530,3 +566,4 @@ def run(ctx):
     ctx.guard(rule_r13)
     ctx.guard(rule_r14)
     ctx.guard(rule_r15)
+    ctx.guard(rule_r16)
